@@ -73,6 +73,10 @@ func main() {
 			ids = []string{"C10"}
 			specs["C10"] = &PropSpec{ID: "C10", Rules: []func(*Ctx){ruleCacheFields, ruleMissingKeyOverwrite, rulePublish, ruleNilInnerMap, ruleSemantic, ruleExtenderKeepsSets, ruleStaleIndex}}
 		}
+		if os.Getenv("HL_RULESET") == "round14d" {
+			ids = []string{"C10"}
+			specs["C10"] = &PropSpec{ID: "C10", Rules: []func(*Ctx){ruleMemoKeyPart, ruleMemoScalarKey, ruleCursorImage, ruleBufferReuse}}
+		}
 		if os.Getenv("HL_RULESET") == "round14c" {
 			ids = []string{"C10"}
 			specs["C10"] = &PropSpec{ID: "C10", Rules: []func(*Ctx){ruleLoopCensus}}
